@@ -8,6 +8,7 @@
 #pragma once
 
 #include <pika/config.hpp>
+#include <pika/config/verif_hooks.hpp>
 #include <pika/affinity/affinity_data.hpp>
 #include <pika/assert.hpp>
 #include <pika/concurrency/cache_line_data.hpp>
@@ -547,6 +548,7 @@ namespace pika::threads::detail {
                         thread_queue_type* q = high_priority_queues_[idx].data_;
                         if (q->get_next_thread(thrd, running, true))
                         {
+                            PIKA_VERIF_POINT(::pika::verif::sched_steal, ::pika::threads::detail::get_thread_id_data(thrd), num_thread, 0);
                             q->increment_num_stolen_from_pending();
                             this_high_priority_queue->increment_num_stolen_to_pending();
                             return true;
@@ -555,6 +557,7 @@ namespace pika::threads::detail {
 
                     if (queues_[idx].data_->get_next_thread(thrd, running, true))
                     {
+                        PIKA_VERIF_POINT(::pika::verif::sched_steal, ::pika::threads::detail::get_thread_id_data(thrd), num_thread, 0);
                         queues_[idx].data_->increment_num_stolen_from_pending();
                         this_queue->increment_num_stolen_to_pending();
                         return true;
